@@ -38,6 +38,7 @@ func init() {
 			{ID: "C02-R15", Title: "reload re-points every function of the reloaded code, whatever its nesting depth (shared with C18-R3)", Floor: 2, Run: c18r3},
 			{ID: "C02-R16", Title: "stores to resolved names test constness first (shared with C01)", Floor: 4, Run: storesToResolvedNamesCheckConstness},
 			{ID: "C02-R17", Title: "frame storage is per activation and re-pointed by its owners only", Floor: 3, Run: frameStorageIsPerActivation},
+			{ID: "C02-R18", Title: "the kind of a captured cell follows the resolution", Floor: 1, Run: cellKindFollowsTheResolution},
 		},
 	})
 }
